@@ -33,6 +33,8 @@
 #include <type_traits>
 #include <utility>
 #include <vector>
+#include <sys/wait.h>
+#include <unistd.h>
 
 typedef unsigned int uint;
 typedef unsigned int quint32;
@@ -58,8 +60,8 @@ inline std::vector<std::string> trace;
 {
     failed = what;
     if (active) siglongjmp(env, 1);
-    std::fprintf(stdout, "(fatal \"%s\")\n", what);
-    std::fflush(stdout);
+    // outside a guarded evaluation (e.g. after an earlier undefined behaviour corrupted memory): the process dies; the
+    // generated main() runs every program in a child process of its own and reports `(died)` for it
     std::_Exit(3);
 }
 inline void on_signal(int sig) { fail(sig == SIGFPE ? "sigfpe" : sig == SIGSEGV ? "sigsegv" : "signal"); }
@@ -88,6 +90,25 @@ template <typename F> const char *guard(F f)
     }
     active = false;
     return failed ? failed : "signal";
+}
+/// runs `f` in a child process (fork): whatever undefined behaviour does to the child, the caller goes on;
+/// prints ` (died)` and a newline if the child did not exit normally
+template <typename F> void in_child(F f)
+{
+    std::fflush(stdout);
+    pid_t pid = fork();
+    if (pid == 0) {
+        f();
+        std::fflush(stdout);
+        std::_Exit(0);
+    }
+    if (pid < 0) { f(); return; }
+    int status = 0;
+    waitpid(pid, &status, 0);
+    if (!(WIFEXITED(status) && WEXITSTATUS(status) == 0)) {
+        std::printf(" (died)\n");
+        std::fflush(stdout);
+    }
 }
 } // namespace rt
 
@@ -301,7 +322,12 @@ inline std::map<const void *, std::string> names;      // object → id in the d
 inline std::string hex64(unsigned long long v) { char b[32]; std::snprintf(b, sizeof b, "%016llx", v); return b; }
 inline std::string show(int v) { return "(int " + std::to_string(v) + ")"; }
 inline std::string show(uint v) { return "(uint " + std::to_string(v) + ")"; }
-inline std::string show(long v) { return "(long " + std::to_string(v) + ")"; }
+// an integer literal that does not fit `int` (and `-2147483648`, which C++ reads as `-(2147483648L)`) is a `long`: the
+// event records the NUMBER; only a value outside the `int` range is marked
+inline std::string show(long v)
+{
+    return (v >= -2147483647L - 1 && v <= 2147483647L) ? "(int " + std::to_string(v) + ")" : "(long " + std::to_string(v) + ")";
+}
 inline std::string show(bool v) { return v ? "(bool true)" : "(bool false)"; }
 inline std::string show(double v) { unsigned long long b; std::memcpy(&b, &v, 8); return std::isnan(v) ? "(double nan)" : "(double " + hex64(b) + ")"; }
 inline std::string show(const QString &s)
